@@ -1,5 +1,5 @@
 #!/usr/bin/env python3
-"""Detection tests for the C02 units: realistic breaking edits of igris/container/vector.h / igris/util/ctrdtr.h in a scratch
+"""(after-fix version: run on a worktree of the REPAIRED /repo)  Detection tests for the C02 units: realistic breaking edits of igris/container/vector.h / igris/util/ctrdtr.h in a scratch
 worktree, each checked by the unit that should catch it.
    git -C /repo worktree add --detach /tmp/wt-C02
    python3 units/C02/tools/mutation_tests.py [name ...]     (VERIF_JOBS is taken from the environment)
@@ -16,8 +16,6 @@ C = 'igris/util/ctrdtr.h'
 
 M = [
     # name, file, old, new, unit
-    ('push_back_no_size_inc', V, '''            igris::constructor(m_data + m_size, ref);
-            m_size++;''', '''            igris::constructor(m_data + m_size, ref);''', 'push_back'),
     ('changeBuffer_no_destroy_old', V, '''            igris::array_destructor(begin(), end());
             auto oldbuf = m_data;''', '''            igris::array_destructor(begin(), begin());
             auto oldbuf = m_data;''', 'reserve'),
@@ -62,20 +60,6 @@ M = [
         {
             return m_data[m_size];''', 'access'),
     ('emplace_back_wrong_slot', V, 'igris::constructor(m_data + m_size, std::forward<Args>(args)...);', 'igris::constructor(m_data + m_size + 1, std::forward<Args>(args)...);', 'emplace_back'),
-    ('erase_range_keeps_size', V, '''            std::move(last, end(), first);
-            m_size -= sz;''', '''            std::move(last, end(), first);''', 'erase_range'),
-    ('erase_it_off_by_one', V, '            m_size = newend - m_data;', '            m_size = newend - m_data + 1;', 'erase_it'),
-    ('insert_returns_wrong_iterator', V, '''            *first = value;
-
-            return first;''', '''            *first = value;
-
-            return first + 1;''', 'insert_value'),
-    ('insert_drops_assignment', V, '''            std::move_backward(first, last, (iterator)end());
-            *first = value;''', '''            std::move_backward(first, last, (iterator)end());
-            if (first != m_data)
-                *first = value;''', 'insert_value'),
-    ('emplace_wrong_shift', V, 'std::move_backward(first, last, end());', 'std::move_backward(first, last, end() - 1);', 'emplace'),
-    ('insert_range_size', V, '            m_size += sz;', '            m_size += sz + 1;', 'insert_range'),
     ('copy_ctor_no_capacity', V, '''            m_data = m_alloc.allocate(m_size);
             m_capacity = m_size;
             for (auto ip = other.m_data, op = m_data;
@@ -119,11 +103,6 @@ M = [
     ('ctor_iter_bad_init', V, '''        vector(iterator a, const iterator b)
             : m_data(nullptr), m_capacity(0), m_size(0)''', '''        vector(iterator a, const iterator b)
             : m_data(nullptr), m_capacity(0), m_size(1)''', 'ctor_iter'),
-    ('rbegin_past_end', V, '''        iterator rbegin()
-        {
-            return m_data + m_size - 1;''', '''        iterator rbegin()
-        {
-            return m_data + m_size;''', 'reverse_iter'),
     ('ctrdtr_destructor_noop', C, '        ptr->~T();', '        ptr->~T(); ptr->~T();', 'pop_back'),
     ('ctrdtr_array_destructor_skips_first', C, '''        while (first != last)
         {
@@ -132,6 +111,31 @@ M = [
         while (first != last)
         {
             igris::destructor(&*first);''', 'invalidate'),
+    # ---- edits of the repaired functions (re-introduce the repaired defects / break the new code)
+    ('push_back_copies_after_reserve', V, '''                igris::constructor(tmp, ref);
+                reserve(m_size + 1);''', '''                reserve(m_size + 1);
+                igris::constructor(tmp, ref);''', 'push_back'),
+    ('copy_assign_order_reverted', V, '''            m_size = other.m_size;
+            m_data = m_alloc.allocate(m_size);''', '''            m_data = m_alloc.allocate(m_size);
+            m_size = other.m_size;''', 'assign_copy'),
+    ('erase_destroys_one_too_few', V, 'igris::array_destructor(newend, end());', 'igris::array_destructor(newend + 1, end());', 'erase_range'),
+    ('erase_pos_removes_two', V, '            erase(pos, pos + 1);', '            erase(pos, pos + 2);', 'erase_it'),
+    ('insert_temp_destroyed_twice', V, '''            igris::destructor(tmp);
+            m_size++;
+
+            return first;''', '''            igris::destructor(tmp);
+            igris::destructor(tmp);
+            m_size++;
+
+            return first;''', 'insert_value'),
+    ('insert_constructs_over_last', V, 'igris::move_constructor(last, std::move(*(last - 1)));\n                std::move_backward(first, last - 1, last);\n                *first',
+     'igris::move_constructor(last - 1, std::move(*(last - 1)));\n                std::move_backward(first, last - 1, last);\n                *first', 'insert_value'),
+    ('emplace_no_destroy_before_construct', V, '''            if (first != last)
+                igris::destructor(first);
+            new (first)''', '''            if (first == last)
+                igris::destructor(first);
+            new (first)''', 'emplace'),
+    ('insert_range_wrong_position', V, '                insert(m_data + i, *first);', '                insert(m_data + _pos, *first);', 'insert_range2'),   # needs --tier thorough
 ]
 
 
@@ -149,7 +153,7 @@ def main():
             continue
         open(p, 'w').write(t.replace(old, new))
         env = dict(os.environ, VERIF_REPO=WT)
-        r = subprocess.run(['/verif/vc', 'check', 'C02', '--unit', unit], capture_output=True, text=True, env=env, cwd='/verif')
+        r = subprocess.run(['/verif/vc', 'check', 'C02', '--tier', 'thorough', '--unit', unit], capture_output=True, text=True, env=env, cwd='/verif')
         lines = r.stdout.splitlines()
         first = ''
         for i, l in enumerate(lines):
